@@ -785,3 +785,17 @@ VARIANTS += [
     V('C14-M24', 'M', ('C14',), SP, 'managed', r'(\n    )(proxy = server\.create\(None, typeid, obj\))', r'\1\2\1server.registry.pop(typeid, None)', ('C14-9',), note='seeded C14-r3m2 shape'),
     V('C11-M22', 'M', ('C11',), SL, 'EnsembleServlet.start', r'(\n\s+)(for ss in self\._servlets\[: len\(self\._qins\)\]:\n\s+ss\.stop\(\)[^\n]*)\n\s+self\._reset\(\)\n', r'\1self._reset()\1\2\n', ('C11-1',), note='seeded C11-r3m2 shape'),
 ]
+
+FU = 'concurrent/futures/__init__.py'
+VARIANTS += [
+    V('C01-M22', 'M', ('C01',), FU, '_loud_thread_function', r'traceback\.print_exception\(\*sys\.exc_info\(\)\)\n\s+raise', 'traceback.print_exception(*sys.exc_info())', ('C01-7',), note='printed, not re-raised: the failed call yields None'),
+    V('C01-M23', 'M', ('C01',), FU, 'ProcessPoolExecutor.submit', r'return super\(\)\.submit\(_loud_process_function, fn, \*args, \*\*kwargs\)', 'return super().submit(_loud_process_function, fn, *args)', ('C01-7',), note='keyword arguments dropped on the loud branch'),
+    V('C17-M23', 'M', ('C17',), QU, 'IterableQueue.__init__', r'self\._used_lids = queue\.Queue\(maxsize=num_suppliers\)', 'self._used_lids = queue.Queue(maxsize=num_suppliers + 1)', ('C17-6',)),
+    V('C09-M25', 'M', ('C09',), WK, 'Worker._start_batch', r'SingleLane\(self\.batch_size \+ 10\)', 'SingleLane(self.batch_size - 1)', ('C09-8',)),
+    V('C09-E21', 'E', ALL, WK, 'Worker._start_batch', r'SingleLane\(self\.batch_size \+ 10\)', 'SingleLane(self.batch_size + 16)'),
+]
+
+VARIANTS += [
+    V('C20-M22', 'M', ('C20',), FU, 'ProcessPoolExecutor.__init__', r'mp_context = MP_SPAWN_CTX', "mp_context = multiprocessing.get_context('spawn')", ('C20-4',)),
+    V('C20-M23', 'M', ('C20',), SL, None, r'from mpservice\.multiprocessing import Process\n', 'from multiprocessing import Process\n', ('C20-4',), flags=0),
+]
